@@ -32,11 +32,11 @@ def rechunk(case, mode, rng):
             lines = lines[n:]
             new_ops.append(['bytes', part])
         assert not lines
-    return {'acts': case.get('acts', {}), 'ops': new_ops, 'tls': new_tls}
+    return {'acts': case.get('acts', {}), 'debug': bool(case.get('debug')), 'ops': new_ops, 'tls': new_tls}
 
 
 def to_json_case(case):
-    return {'acts': case.get('acts', {}), 'ops': case['ops'], 'tls': {str(k): v for k, v in case['tls'].items()}}
+    return {'acts': case.get('acts', {}), 'debug': bool(case.get('debug')), 'ops': case['ops'], 'tls': {str(k): v for k, v in case['tls'].items()}}
 
 
 def make_run_cases(tagger):
@@ -95,7 +95,7 @@ def shrink_ops(result, drv, run_cases):
         cand_tls = {}
         for k, v in tls.items():
             cand_tls[k if k < i else k - 1] = v
-        r = fails({'acts': case['acts'], 'ops': cand_ops, 'tls': cand_tls})
+        r = fails({'acts': case['acts'], 'debug': case.get('debug'), 'ops': cand_ops, 'tls': cand_tls})
         if r is not None:
             ops, tls, best = cand_ops, cand_tls, r
         i -= 1
